@@ -145,7 +145,7 @@ class Func:
     def __init__(s, name, ret, params):
         s.name = name; s.ret = ret; s.params = params; s.blocks = []; s.sret = None; s.byval = set()
 
-LINKAGE = {'dso_local', 'linkonce_odr', 'internal', 'hidden', 'weak_odr', 'private', 'weak', 'available_externally',
+LINKAGE = {'fastcc', 'ccc', 'coldcc', 'dso_local', 'linkonce_odr', 'internal', 'hidden', 'weak_odr', 'private', 'weak', 'available_externally',
            'external', 'protected', 'default', 'linkonce', 'unnamed_addr', 'local_unnamed_addr', 'dso_preemptable'}
 
 def parse_module(text):
@@ -276,12 +276,16 @@ PRELUDE = r'''
 #include <stdint.h>
 #include <stddef.h>
 #include <string.h>
+#include <stdlib.h>
 typedef int64_t I64; typedef uint64_t U64;
 #ifndef LL2C_NATIVE
 I64 __CPROVER_uninterpreted_mul(I64, I64); I64 __CPROVER_uninterpreted_sdiv(I64, I64); I64 __CPROVER_uninterpreted_srem(I64, I64);
 #endif
 extern int EXC;
+static char EXC_OBJ[64];   /* storage of the exception object (its contents are never inspected) */
 '''
+
+LIBC = {'strlen', 'memcmp', 'memchr', 'memcpy', 'memmove', 'memset', 'malloc', 'free', 'calloc', 'realloc', 'abort', 'strcmp', 'strncmp'}
 
 class Gen:
     def __init__(s, mod, arith='exact', cut=(), contracts=None, loopc=None, cutbodies=True):
@@ -291,7 +295,7 @@ class Gen:
         s.loopc = loopc or {}               # (cname, k) -> loop contract text
         s.structs_done = set(); s.struct_order = []; s.litnames = {}
         s.used_globals = {}; s.was_cut = set(); s.externals = set(); s.nloops = {}; s.asserts = []
-        s.nd_types = {}
+        s.nd_types = {}; s.no_body = set()
 
     # ---- C types
     def sname(s, t):
@@ -383,7 +387,7 @@ class Gen:
         # prototypes for everything referenced
         protos = []
         for n in sorted(set(order) | s.was_cut | s.externals | set(extra_protos)):
-            if n.startswith('@llvm.'): continue
+            if n.startswith('@llvm.') or n[1:] in LIBC: continue
             protos.append(s.proto(n))
         # globals
         gl = []
@@ -398,6 +402,14 @@ class Gen:
         if after_protos: out.append(after_protos(s) if callable(after_protos) else after_protos)
         out += gl
         out.append(body)
+        # cut / external functions: explicit non-deterministic stand-ins (listed in the evidence as trusted base)
+        for n in sorted((s.was_cut | s.externals) - set(s.no_body)):
+            if n.startswith('@llvm.') or n[1:] in LIBC: continue
+            ret, ps, va = s.sig(n)
+            a = ', '.join(s.ct(t, 'a%d' % i) for i, t in enumerate(ps))
+            if va: a = a + ', ...' if a else '...'
+            if isinstance(ret, Void): out.append('%s(%s){ }' % (s.ct(ret, cname(n)), a or 'void'))
+            else: out.append('%s(%s){ %s; return nd_; }' % (s.ct(ret, cname(n)), a or 'void', s.ct(ret, 'nd_')))
         return '\n'.join(out) + '\n'
     def sig(s, n):
         m = s.m
